@@ -479,6 +479,11 @@ func Go(site string, fn func()) {
 	s.mu.Unlock()
 	name := fmt.Sprintf("go:%s#%d", site, n)
 	s.spawn(name, true, fn)
+	// starting a goroutine is a point where the scheduler may switch (e.g. between the
+	// deliveries of one Fire); set-up code outside any task just goes on
+	if t := s.cur(); t != nil && !s.muted["R3"] {
+		s.park(t, site, nil, modeNone, time.Time{})
+	}
 }
 
 // Spawn starts a named harness task.
